@@ -206,6 +206,6 @@ func allProps() []Prop {
 		{ID: "C07", Jobs: cat(initJ, usc, done, []Job{{Dir: gcp, Harness: gcp, Entry: "VerifH_window", TmoMs: 240000, Note: "independent mathematical form of the detection window"}}), Assume: commonAssume, Bounds: gbBounds},
 		{ID: "C08", Jobs: cat(usc, pick, done), Assume: commonAssume, Bounds: gbBounds},
 		{ID: "C09", Jobs: cat(rr, rrwin, pickRR, usc), Assume: commonAssume, Bounds: gbBounds},
-		{ID: "C20", Jobs: cat(initJ, uccs, usc, reserr, done), Assume: commonAssume, Bounds: gbBounds},
+		{ID: "C20", Jobs: cat(initJ, uccs, usc, reserr, done, caseJobs("VerifH_pick", map[string][]int{"method": {0}, "stale": {0, 1}}, []string{"method", "stale"}), grow), Assume: commonAssume, Bounds: gbBounds},
 	}
 }
